@@ -8,14 +8,21 @@ Model: `HyperModel.DSMR.verify`, `buildBlock`, `accept` and the validity window 
 `/verif/fixes/C37-verify-cert-validity-window.patch` (every certificate must satisfy
 `block.ts ≤ expiry ≤ block.ts + window`, in `Verify` and in the builder's filter).
 
-Standing assumption of the ancestor theorems (`Consistent`): a certificate whose aggregate
-signature verifies carries the expiry of the chunk it names (the validators sign the
-reference `(id, producer, expiry)` of the chunk they were shown; ids are injective in the
-content).  It is a property of the trusted warp layer, not of the code under test. -/
+Certificates and expiries.  The ancestor theorems need that two certificates naming the same
+chunk carry the same expiry.  They are stated
+* for **literal certificate reuse** (`… = c'.expiry` as a hypothesis about the two certificates
+  involved, resp. `LiteralReuse` over the certificates that occur in the history) — this is what
+  the property quantifies over and needs no assumption about signers;
+* in the stronger **`ConsistentOn`** form (every *occurring* certificate whose signature verifies
+  carries the expiry of the chunk it names).  The code does **not** enforce this:
+  `ChunkSignatureRequestVerifier.Verify` ignores the message it is asked to sign, so validators
+  sign any reference given any valid chunk (`signReq`, known finding
+  `validator-signs-reference-not-matching-chunk`, `c37_signs_mismatching_reference`,
+  `c37_forged_certificate_delivered_twice`).  With the check of
+  `fixes/C37-verify-signed-message-matches-chunk.*.patch` (`cfg.checksMessage`) it is a
+  consequence of "signed by a validator running this code" (`signed_reference_consistent`). -/
 namespace HyperModel.Props.C37
 open HyperModel.DSMR
-
-def Consistent (cfg : Cfg) : Prop := ∀ c : Cert, c.sigOk = true → c.expiry = (cfg.U c.chunkID).expiry
 
 /-! ## The pieces of `Verify` -/
 
@@ -223,15 +230,16 @@ theorem any_ids_of_mem {ids : List Nat} {f : Nat → Bool} {i : Nat} (hi : i ∈
 /-- **C37 (b), processing ancestor** a block that references a chunk already referenced by a
 not yet accepted ancestor `x` does not verify, however far up the chain `x` is: `l1` are the
 blocks between the block and `x` (timestamps increase along the chain, as `Verify` enforced),
-`x` was itself verified (`certCheck` at `x`). -/
-theorem verify_rejects_ancestor_dup (cfg : Cfg) (hcons : Consistent cfg) (n : Node) (parent b p0 x t : Block)
+`x` was itself verified (`certCheck` at `x`); `c` re-uses the certificate `c'` (same chunk,
+same expiry). -/
+theorem verify_rejects_ancestor_dup (cfg : Cfg) (n : Node) (parent b p0 x t : Block)
     (l1 l2 : List Block) (c c' : Cert)
     (hh : n.lah < b.height)
     (hp : findBlock n.index b.parent = some p0)
     (hw : Walk n.index n.lah p0 (l1 ++ x :: l2) t)
     (hts : ∀ y ∈ l1, x.ts ≤ y.ts)
     (hxv : certCheck cfg x.ts x.certs = .ok)
-    (hc' : c' ∈ x.certs) (hc : c ∈ b.certs) (hid : c.chunkID = c'.chunkID) :
+    (hc' : c' ∈ x.certs) (hc : c ∈ b.certs) (hid : c.chunkID = c'.chunkID) (he : c.expiry = c'.expiry) :
     verify cfg n parent b ≠ .ok := by
   intro h
   obtain ⟨_, _, _, hr, hcc⟩ := verify_ok_inv cfg n parent b h
@@ -240,7 +248,6 @@ theorem verify_rejects_ancestor_dup (cfg : Cfg) (hcons : Consistent cfg) (n : No
   cases hp'
   have hcb := certCheck_ok cfg b.ts b.certs hcc c hc
   have hcx := certCheck_ok cfg x.ts x.certs hxv c' hc'
-  have he : c.expiry = c'.expiry := by rw [hcons c hcb.1, hcons c' hcx.1, hid]
   have hold : b.ts - cfg.window ≤ x.ts := by omega
   have hx : b.ids.any (fun i => x.ids.contains i) = true :=
     any_ids_of_mem (i := c.chunkID) (List.mem_map_of_mem hc)
@@ -348,89 +355,249 @@ theorem accept_ok_inv (cfg : Cfg) (n n' : Node) (b : Block) (sc : List Resp) (ch
       obtain ⟨rfl, _⟩ := h
       exact ⟨rfl, rfl, rfl, rfl⟩
 
-/-! ## Accepted chains -/
+/-! ## Verified and accepted chains -/
 
-/-- States reachable by a node that starts at genesis and accepts, one after the other, blocks
-that it verified against its last accepted block (the chain index returning that block for the
-parent id); between two accepts the chunk storage and the contents of the chain index change
-arbitrarily (chunks and certificates arrive, other blocks are verified, storage is reopened…).
-`acc` are the accepted blocks (newest first), `delivered` the chunks handed to execution. -/
-inductive Reach (cfg : Cfg) : Node → List Block → List Nat → Prop
-  | init : Reach cfg Node.init [] []
-  | env (n : Node) (acc : List Block) (d : List Nat) (st' : Storage) (idx' : List Block) :
-      Reach cfg n acc d → Reach cfg { n with st := st', index := idx' } acc d
-  | accept (n n' : Node) (acc : List Block) (d : List Nat) (b : Block) (sc : List Resp) (chunks : List Nat) :
-      Reach cfg n acc d → findBlock n.index b.parent = some n.last → verify cfg n n.last b = .ok →
-      accept cfg n b sc = (n', .ok chunks) → Reach cfg n' (b :: acc) (d ++ chunks)
+/-- `Good b rest`: block `b` on top of the chain `rest` (its ancestors, newest first, down to but
+excluding genesis) is one that `Verify` has to accept as far as C37 is concerned. -/
+def Good (cfg : Cfg) (b : Block) (rest : List Block) : Prop :=
+  b.ids.Nodup ∧ (∀ a ∈ rest, ∀ i ∈ b.ids, i ∉ a.ids) ∧ certCheck cfg b.ts b.certs = .ok ∧
+  (∀ a ∈ rest, a.ts < b.ts) ∧ 0 < b.ts
 
-structure HInv (cfg : Cfg) (n : Node) (acc : List Block) (d : List Nat) : Prop where
+def GoodChain (cfg : Cfg) : List Block → Prop
+  | [] => True
+  | b :: rest => Good cfg b rest ∧ GoodChain cfg rest
+
+theorem goodChain_suffix (cfg : Cfg) : ∀ (l r : List Block), GoodChain cfg (l ++ r) → GoodChain cfg r := by
+  intro l
+  induction l with
+  | nil => intro r h; exact h
+  | cons _ _ ih => intro r h; exact ih r h.2
+
+theorem goodChain_mem (cfg : Cfg) : ∀ (ch : List Block), GoodChain cfg ch → ∀ a ∈ ch,
+    certCheck cfg a.ts a.certs = .ok := by
+  intro ch
+  induction ch with
+  | nil => intro _ a ha; cases ha
+  | cons b rest ih =>
+    intro h a ha
+    rcases List.mem_cons.1 ha with rfl | ha
+    · exact h.1.2.2.1
+    · exact ih h.2 a ha
+
+/-- timestamps strictly decrease down a good chain -/
+theorem goodChain_ts (cfg : Cfg) : ∀ (l : List Block) (a : Block) (r : List Block),
+    GoodChain cfg (l ++ a :: r) → ∀ y ∈ l, a.ts < y.ts := by
+  intro l
+  induction l with
+  | nil => intro a r _ y hy; cases hy
+  | cons z l ih =>
+    intro a r h y hy
+    rcases List.mem_cons.1 hy with rfl | hy
+    · exact h.1.2.2.2.1 a (by simp)
+    · exact ih a r h.2 y hy
+
+theorem goodChain_ts' (cfg : Cfg) (l r : List Block) (h : GoodChain cfg (l ++ r)) :
+    ∀ y ∈ l, ∀ a ∈ r, a.ts < y.ts := by
+  intro y hy a ha
+  obtain ⟨r1, r2, rfl⟩ := List.append_of_mem ha
+  have : l ++ (r1 ++ a :: r2) = (l ++ r1) ++ a :: r2 := by simp
+  rw [this] at h
+  exact goodChain_ts cfg (l ++ r1) a r2 h y (by simp [hy])
+
+/-- what the node knows about every chunk id: the expiry `E id` of "the" certificate of `id` -/
+def Agree (E : Nat → Nat) (chains : List (List Block)) : Prop :=
+  ∀ ch ∈ chains, ∀ a ∈ ch, ∀ c ∈ a.certs, c.sigOk = true → c.expiry = E c.chunkID
+
+/-- States reachable by a node that starts at genesis and, in any order,
+* `verify`: verifies a block `b` whose parent `p` is the last accepted block (`l = []`) or the
+  head of a chain `l ++ acc` of blocks it verified earlier (`l`: the not yet accepted ones; the
+  chain index serves them: `Walk`), and remembers the verified chain `b :: (l ++ acc)`;
+* `accept`: accepts a block verified **at any earlier time** — possibly when some of its
+  ancestors were still processing — whose parent is the last accepted block, *without verifying
+  it again*;
+* `env`: in between the chunk storage and the contents of the chain index change arbitrarily
+  (chunks and certificates arrive, storage is reopened, blocks are indexed …).
+`acc` are the accepted blocks (newest first), `d` the chunks handed to execution, `V` the verified
+chains. -/
+inductive Reach (cfg : Cfg) : Node → List Block → List Nat → List (List Block) → Prop
+  | init : Reach cfg Node.init [] [] []
+  | env (n : Node) (acc : List Block) (d : List Nat) (V : List (List Block)) (st' : Storage) (idx' : List Block) :
+      Reach cfg n acc d V → Reach cfg { n with st := st', index := idx' } acc d V
+  | verify (n : Node) (acc : List Block) (d : List Nat) (V : List (List Block)) (b p : Block) (l : List Block) :
+      Reach cfg n acc d V → findBlock n.index b.parent = some p → Walk n.index n.lah p l n.last →
+      (l = [] ∨ (l ++ acc) ∈ V) → verify cfg n p b = .ok →
+      Reach cfg n acc d ((b :: (l ++ acc)) :: V)
+  | accept (n n' : Node) (acc : List Block) (d : List Nat) (V : List (List Block)) (b : Block) (sc : List Resp)
+      (chunks : List Nat) :
+      Reach cfg n acc d V → (b :: acc) ∈ V → accept cfg n b sc = (n', .ok chunks) →
+      Reach cfg n' (b :: acc) (d ++ chunks) V
+
+structure HInv (cfg : Cfg) (E : Nat → Nat) (n : Node) (acc : List Block) (d : List Nat) (V : List (List Block)) : Prop where
   ts : ∀ a ∈ acc, a.ts ≤ n.last.ts
-  certs : ∀ a ∈ acc, ∀ c ∈ a.certs, c.expiry = (cfg.U c.chunkID).expiry ∧ c.expiry ≤ a.ts + cfg.window
-  seenExp : ∀ e ∈ n.seen, e.2 = (cfg.U e.1).expiry
+  seenExp : ∀ e ∈ n.seen, e.2 = E e.1
   seen : ∀ a ∈ acc, ∀ c ∈ a.certs, n.last.ts ≤ c.expiry → c.expiry ≠ 0 → n.seen.has c.chunkID = true
   lah : n.lah = n.last.height
+  lastMem : acc = [] ∨ n.last ∈ acc
+  accIn : acc = [] ∨ acc ∈ V
+  good : GoodChain cfg acc
+  goodV : ∀ ch ∈ V, GoodChain cfg ch
   mem : ∀ i, i ∈ d ↔ ∃ a ∈ acc, i ∈ a.ids
   nodup : d.Nodup
 
-theorem reach_inv (cfg : Cfg) (hcons : Consistent cfg) (n : Node) (acc : List Block) (d : List Nat)
-    (h : Reach cfg n acc d) : HInv cfg n acc d := by
+theorem walk_cases {idx : List Block} {lah : Nat} {p t : Block} {l : List Block} (h : Walk idx lah p l t) :
+    (l = [] ∧ p = t) ∨ (∃ l', l = p :: l' ∧ ¬(p.height ≤ lah ∨ p.height = 0)) := by
+  cases h with
+  | stop _ _ => exact Or.inl ⟨rfl, rfl⟩
+  | step _ _ l' _ h1 _ _ _ => exact Or.inr ⟨l', rfl, h1⟩
+
+/-- **C37 (b), combined** in a reachable state, a block `b` that verifies on a parent `p` —
+the accepted tip or the head of a chain `l` of verified, still processing blocks — references
+each chunk once and *no chunk of any ancestor*: neither of a processing one (`l`, at any
+distance) nor of an accepted one (`acc`, however long ago, whether or not it is still in the
+accepted set), and all its certificates are inside their validity window. -/
+theorem verify_sound (cfg : Cfg) (E : Nat → Nat) (n : Node) (acc : List Block) (d : List Nat) (V : List (List Block))
+    (hi : HInv cfg E n acc d V) (b p : Block) (l : List Block)
+    (hE : Agree E ((b :: (l ++ acc)) :: V))
+    (hfind : findBlock n.index b.parent = some p) (hw : Walk n.index n.lah p l n.last)
+    (hl : l = [] ∨ (l ++ acc) ∈ V) (hv : verify cfg n p b = .ok) : Good cfg b (l ++ acc) := by
+  obtain ⟨_, hht, htsb, hr, hcc⟩ := verify_ok_inv cfg n p b hv
+  have hgl : GoodChain cfg (l ++ acc) := by
+    rcases hl with rfl | h
+    · simpa using hi.good
+    · exact hi.goodV _ h
+  have hph : n.lah ≤ p.height := by
+    rcases walk_cases hw with ⟨_, rfl⟩ | ⟨_, _, hnt⟩
+    · rw [hi.lah]; exact Nat.le_refl _
+    · exact Nat.le_of_lt (Nat.lt_of_not_le (fun h => hnt (Or.inl h)))
+  have hh : n.lah < b.height := by omega
+  obtain ⟨hdup, p', hp', hrep⟩ := replayCheck_ok cfg n b hh hr
+  rw [hfind] at hp'
+  cases hp'
+  have hcb := certCheck_ok cfg b.ts b.certs hcc
+  -- every ancestor is at most as recent as the parent
+  have hpts : ∀ a ∈ l ++ acc, a.ts ≤ p.ts := by
+    intro a ha
+    rcases walk_cases hw with ⟨rfl, rfl⟩ | ⟨l', rfl, _⟩
+    · exact hi.ts a (by simpa using ha)
+    · have ha2 : a = p ∨ a ∈ l' ++ acc := by simpa using ha
+      rcases ha2 with rfl | ha'
+      · exact Nat.le_refl _
+      · exact Nat.le_of_lt (hgl.1.2.2.2.1 a ha')
+  have hself : ∀ a ∈ l ++ acc, ∀ c' ∈ a.certs, ∀ c ∈ b.certs, c.chunkID = c'.chunkID →
+      c.expiry = c'.expiry ∧ c'.expiry ≤ a.ts + cfg.window := by
+    intro a ha c' hc' c hc hid
+    have hca := certCheck_ok cfg a.ts a.certs (goodChain_mem cfg _ hgl a ha) c' hc'
+    have e1 := hE (b :: (l ++ acc)) List.mem_cons_self b List.mem_cons_self c hc (hcb c hc).1
+    have e2 := hE (b :: (l ++ acc)) List.mem_cons_self a (List.mem_cons_of_mem _ ha) c' hc' hca.1
+    exact ⟨by rw [e1, e2, hid], hca.2.2⟩
+  refine ⟨(dupLoop_false _ _ hdup).1, ?_, hcc, fun a ha => Nat.lt_of_le_of_lt (hpts a ha) htsb, by omega⟩
+  intro a ha i hib hia
+  obtain ⟨c, hc, rfl⟩ := List.mem_map.1 hib
+  obtain ⟨c', hc', hid⟩ := List.mem_map.1 hia
+  obtain ⟨he, hwin⟩ := hself a ha c' hc' c hc hid.symm
+  have hcbc := hcb c hc
+  rcases List.mem_append.1 ha with hal | haa
+  · -- a processing ancestor
+    obtain ⟨l1, l2, rfl⟩ := List.append_of_mem hal
+    have hts : ∀ y ∈ l1, a.ts < y.ts := by
+      have : (l1 ++ a :: l2) ++ acc = l1 ++ a :: (l2 ++ acc) := by simp
+      rw [this] at hgl
+      exact goodChain_ts cfg l1 a _ hgl
+    have hx : b.ids.any (fun i => a.ids.contains i) = true :=
+      any_ids_of_mem (i := c.chunkID) hib (by simpa using hia)
+    have := hasRepeat_found n.index n.lah n.seen (b.ts - cfg.window) b.ids a l2 n.last hx (by omega) l1 p
+      (p.height + 1) hw (by have := walk_len hw; omega) (fun y hy => by have := hts y hy; omega)
+    rw [this] at hrep
+    cases hrep
+  · -- an accepted ancestor
+    have h3 := hi.ts a haa
+    have hlast : n.last.ts ≤ p.ts := by
+      rcases hi.lastMem with h | h
+      · rw [h] at haa; cases haa
+      · exact hpts _ (List.mem_append.2 (Or.inr h))
+    have hs := hi.seen a haa c' hc' (by omega) (by omega)
+    have hts : ∀ y ∈ l, b.ts - cfg.window ≤ y.ts := by
+      intro y hy
+      have := goodChain_ts' cfg l acc hgl y hy a haa
+      omega
+    have := hasRepeat_seen n.index n.lah n.seen (b.ts - cfg.window) b.ids n.last
+      (any_ids_of_mem (i := c.chunkID) hib (by rw [← hid]; exact hs)) (by omega) l p (p.height + 1) hw
+      (by have := walk_len hw; omega) hts
+    rw [this] at hrep
+    cases hrep
+
+theorem agree_tail {E : Nat → Nat} {ch : List Block} {V : List (List Block)} (h : Agree E (ch :: V)) : Agree E V :=
+  fun c hc => h c (by simp [hc])
+
+theorem reach_inv (cfg : Cfg) (E : Nat → Nat) (n : Node) (acc : List Block) (d : List Nat) (V : List (List Block))
+    (h : Reach cfg n acc d V) : Agree E V → HInv cfg E n acc d V := by
   induction h with
   | init =>
-    exact ⟨by simp, by simp, by simp [Node.init], by simp, rfl, by simp, by simp⟩
-  | env n acc d st' idx' _ ih => exact ⟨ih.ts, ih.certs, ih.seenExp, ih.seen, ih.lah, ih.mem, ih.nodup⟩
-  | accept n n' acc d b sc chunks _ hfind hv hacc ih =>
-    obtain ⟨_, hht, htsb, hr, hcc⟩ := verify_ok_inv cfg n n.last b hv
-    have hh : n.lah < b.height := by rw [ih.lah]; omega
-    obtain ⟨hdup, p, hp, hrep⟩ := replayCheck_ok cfg n b hh hr
-    rw [hfind] at hp
-    cases hp
-    have hnd : b.ids.Nodup := (dupLoop_false _ _ hdup).1
+    intro _
+    exact ⟨by simp, by simp [Node.init], by simp, rfl, Or.inl rfl, Or.inl rfl, trivial, by simp, by simp, by simp⟩
+  | env n acc d V st' idx' _ ih =>
+    intro hE
+    have ih := ih hE
+    exact ⟨ih.ts, ih.seenExp, ih.seen, ih.lah, ih.lastMem, ih.accIn, ih.good, ih.goodV, ih.mem, ih.nodup⟩
+  | verify n acc d V b p l _ hfind hw hl hv ih =>
+    intro hE
+    have ih := ih (agree_tail hE)
+    have hg := verify_sound cfg E n acc d V ih b p l hE hfind hw hl hv
+    have hgl : GoodChain cfg (l ++ acc) := by
+      rcases hl with rfl | h
+      · simpa using ih.good
+      · exact ih.goodV _ h
+    refine ⟨ih.ts, ih.seenExp, ih.seen, ih.lah, ih.lastMem, ?_, ih.good, ?_, ih.mem, ih.nodup⟩
+    · rcases ih.accIn with h | h
+      · exact Or.inl h
+      · exact Or.inr (by simp [h])
+    · intro ch hch
+      rcases List.mem_cons.1 hch with rfl | hch
+      · exact ⟨hg, hgl⟩
+      · exact ih.goodV ch hch
+  | accept n n' acc d V b sc chunks _ hbV hacc ih =>
+    intro hE
+    have ih := ih hE
+    have hgc : GoodChain cfg (b :: acc) := ih.goodV _ hbV
+    obtain ⟨hnd, hdis, hcc, hts, hpos⟩ := hgc.1
     have hchunks : chunks = b.ids := C35.accept_chunks_eq_referenced cfg n n' b sc chunks hacc
     obtain ⟨hseen, hlah, hlast, _⟩ := accept_ok_inv cfg n n' b sc chunks hacc
     have hcb := certCheck_ok cfg b.ts b.certs hcc
-    rw [hasRepeat_terminal _ _ _ _ _ _ _ (Or.inl (by rw [ih.lah]; exact Nat.le_refl _))] at hrep
-    -- no chunk of `b` was delivered before
-    have hfresh : ∀ i ∈ b.ids, i ∉ d := by
-      intro i hi hd
-      obtain ⟨a, ha, hia⟩ := (ih.mem i).1 hd
-      obtain ⟨c, hc, rfl⟩ := List.mem_map.1 hi
-      obtain ⟨c', hc', hid⟩ := List.mem_map.1 hia
-      have h1 := hcb c hc
-      have h2 := ih.certs a ha c' hc'
-      have he : c.expiry = c'.expiry := by rw [hcons c h1.1, h2.1, hid]
-      have h3 := ih.ts a ha
-      have hs := ih.seen a ha c' hc' (by omega) (by omega)
-      rw [if_neg (by omega)] at hrep
-      have : b.ids.any n.seen.has = true :=
-        any_ids_of_mem (i := c.chunkID) hi (by rw [← hid]; exact hs)
-      rw [this] at hrep
-      cases hrep
-    refine ⟨?_, ?_, ?_, ?_, by rw [hlah, hlast], ?_, ?_⟩
+    have hEb : ∀ c ∈ b.certs, c.expiry = E c.chunkID :=
+      fun c hc => hE _ hbV b (by simp) c hc (hcb c hc).1
+    have hlastlt : acc = [] ∨ n.last.ts < b.ts := by
+      rcases ih.lastMem with h | h
+      · exact Or.inl h
+      · exact Or.inr (hts _ h)
+    refine ⟨?_, ?_, ?_, by rw [hlah, hlast], Or.inr (by rw [hlast]; simp), Or.inr hbV, hgc, ih.goodV, ?_, ?_⟩
     · intro a ha
       rw [hlast]
       rcases List.mem_cons.1 ha with rfl | ha
       · exact Nat.le_refl _
-      · have := ih.ts a ha; omega
-    · intro a ha c hc
-      rcases List.mem_cons.1 ha with rfl | ha
-      · exact ⟨hcons c (hcb c hc).1, (hcb c hc).2.2⟩
-      · exact ih.certs a ha c hc
+      · exact Nat.le_of_lt (hts a ha)
     · intro e he
       rw [hseen, seenAccept_eq] at he
       rcases mem_addCerts _ _ e he with he | ⟨c, hc, rfl⟩
       · exact ih.seenExp e (List.mem_filter.1 he).1
-      · exact hcons c (hcb c hc).1
+      · exact hEb c hc
     · intro a ha c hc hle hne
       rw [hlast] at hle
       rw [hseen, seenAccept_eq]
       rcases List.mem_cons.1 ha with rfl | ha
       · exact addCerts_self _ _ c hc hne
       · apply addCerts_mono
-        have h3 := ih.ts a ha
+        have hlt : n.last.ts < b.ts := by
+          rcases hlastlt with h | h
+          · rw [h] at ha; cases ha
+          · exact h
         have hs := ih.seen a ha c hc (by omega) hne
         obtain ⟨t, ht⟩ := (has_iff _ _).1 hs
         have hte := ih.seenExp _ ht
-        have hce := (ih.certs a ha c hc).1
+        have hca := certCheck_ok cfg a.ts a.certs (goodChain_mem cfg _ ih.good a ha) c hc
+        have hce : c.expiry = E c.chunkID := by
+          rcases ih.accIn with h | h
+          · rw [h] at ha; cases ha
+          · exact hE _ h a ha c hc hca.1
         simp only at hte
         exact (has_iff _ _).2 ⟨t, List.mem_filter.2 ⟨ht, by simp; omega⟩⟩
     · intro i
@@ -444,39 +611,108 @@ theorem reach_inv (cfg : Cfg) (hcons : Consistent cfg) (n : Node) (acc : List Bl
         · exact Or.inr hi
         · exact Or.inl ⟨a, ha, hi⟩
     · rw [hchunks]
-      exact List.nodup_append.2 ⟨ih.nodup, hnd, fun x hx y hy e => hfresh y hy (e ▸ hx)⟩
+      refine List.nodup_append.2 ⟨ih.nodup, hnd, ?_⟩
+      intro x hx y hy e
+      subst e
+      obtain ⟨a, ha, hxa⟩ := (ih.mem x).1 hx
+      exact hdis a ha x hy hxa
 
-/-- **C37 corollary** along any accepted chain — whatever certificates of whatever expiry are
-re-used at later heights and timestamps, before or after the earlier inclusion left the
-accepted set — no chunk is handed to execution twice. -/
-theorem no_chunk_delivered_twice (cfg : Cfg) (hcons : Consistent cfg) (n : Node) (acc : List Block)
-    (d : List Nat) (h : Reach cfg n acc d) : d.Nodup :=
-  (reach_inv cfg hcons n acc d h).nodup
+/-- **C37 corollary** along any accepted chain — blocks verified on processing or accepted
+parents, accepted later without being verified again, certificates re-used at any later height
+and timestamp, before or after the earlier inclusion was accepted and before or after it left
+the accepted set — no chunk is handed to execution twice, provided the certificates that occur
+agree on each chunk's expiry (`Agree`; see `no_chunk_delivered_twice_literal` and
+`no_chunk_delivered_twice_consistent` for the two ways to obtain it). -/
+theorem no_chunk_delivered_twice (cfg : Cfg) (E : Nat → Nat) (n : Node) (acc : List Block) (d : List Nat)
+    (V : List (List Block)) (h : Reach cfg n acc d V) (hE : Agree E V) : d.Nodup :=
+  (reach_inv cfg E n acc d V h hE).nodup
 
 /-- the delivered chunks are exactly the chunks referenced by the accepted blocks -/
-theorem delivered_eq_referenced (cfg : Cfg) (hcons : Consistent cfg) (n : Node) (acc : List Block)
-    (d : List Nat) (h : Reach cfg n acc d) (i : Nat) : i ∈ d ↔ ∃ a ∈ acc, i ∈ a.ids :=
-  (reach_inv cfg hcons n acc d h).mem i
+theorem delivered_eq_referenced (cfg : Cfg) (E : Nat → Nat) (n : Node) (acc : List Block) (d : List Nat)
+    (V : List (List Block)) (h : Reach cfg n acc d V) (hE : Agree E V) (i : Nat) :
+    i ∈ d ↔ ∃ a ∈ acc, i ∈ a.ids :=
+  (reach_inv cfg E n acc d V h hE).mem i
 
-/-- **C37 (b), accepted ancestor, full form** a block on top of the last accepted block that
-references a chunk of *any* earlier accepted block does not verify. -/
-theorem verify_rejects_accepted_ancestor_dup (cfg : Cfg) (hcons : Consistent cfg) (n : Node)
-    (acc : List Block) (d : List Nat) (h : Reach cfg n acc d) (b a : Block) (c : Cert)
-    (hfind : findBlock n.index b.parent = some n.last)
-    (ha : a ∈ acc) (hc : c ∈ b.certs) (hca : c.chunkID ∈ a.ids) :
-    verify cfg n n.last b ≠ .ok := by
+/-- all certificates occurring in the verified chains -/
+def allCerts (V : List (List Block)) : List Cert := V.flatMap (fun ch => ch.flatMap (·.certs))
+
+/-- literal certificate reuse: certificates of the history that name the same chunk carry the same
+expiry (they are the same certificate, re-used) -/
+def LiteralReuse (V : List (List Block)) : Prop :=
+  ∀ c ∈ allCerts V, ∀ c' ∈ allCerts V, c.chunkID = c'.chunkID → c.expiry = c'.expiry
+
+theorem agree_of_literal (V : List (List Block)) (h : LiteralReuse V) :
+    Agree (fun i => (((allCerts V).find? (fun c => c.chunkID == i)).map (·.expiry)).getD 0) V := by
+  intro ch hch a ha c hc _
+  have hmem : c ∈ allCerts V := by
+    simp only [allCerts, List.mem_flatMap]
+    exact ⟨ch, hch, a, ha, hc⟩
+  cases hf : (allCerts V).find? (fun x => x.chunkID == c.chunkID) with
+  | none =>
+    rw [List.find?_eq_none] at hf
+    exact absurd (by simp) (hf c hmem)
+  | some c0 =>
+    have h0 := List.mem_of_find?_eq_some hf
+    have hid : c0.chunkID = c.chunkID := by simpa using List.find?_some hf
+    simp only [hf, Option.map_some, Option.getD_some]
+    exact h c hmem c0 h0 hid.symm
+
+/-- **C37 corollary, unconditional under literal certificate reuse** (what the property
+quantifies over: "chunk certificates of any expiry re-used at later heights and timestamps"). -/
+theorem no_chunk_delivered_twice_literal (cfg : Cfg) (n : Node) (acc : List Block) (d : List Nat)
+    (V : List (List Block)) (h : Reach cfg n acc d V) (hl : LiteralReuse V) : d.Nodup :=
+  no_chunk_delivered_twice cfg _ n acc d V h (agree_of_literal V hl)
+
+/-- every *occurring* certificate whose signature verifies carries the expiry of its chunk -/
+def ConsistentOn (cfg : Cfg) (V : List (List Block)) : Prop := Agree (fun i => (cfg.U i).expiry) V
+
+/-- **C37 corollary, stronger variant** also for *different* certificates of the same chunk,
+when the signers only sign references that match the chunk (`signed_reference_consistent`; not
+enforced by the unrepaired code, see `c37_forged_certificate_delivered_twice`). -/
+theorem no_chunk_delivered_twice_consistent (cfg : Cfg) (n : Node) (acc : List Block) (d : List Nat)
+    (V : List (List Block)) (h : Reach cfg n acc d V) (hc : ConsistentOn cfg V) : d.Nodup :=
+  no_chunk_delivered_twice cfg _ n acc d V h hc
+
+/-- **C37 (b), any ancestor, reachable states** (literal reuse): in a reachable state a block
+that verifies on the accepted tip or on a verified processing chain shares no chunk with any of
+its ancestors. -/
+theorem verify_rejects_any_ancestor_dup (cfg : Cfg) (n : Node) (acc : List Block) (d : List Nat)
+    (V : List (List Block)) (h : Reach cfg n acc d V) (b p : Block) (l : List Block)
+    (hl : LiteralReuse ((b :: (l ++ acc)) :: V))
+    (hfind : findBlock n.index b.parent = some p) (hw : Walk n.index n.lah p l n.last)
+    (hlV : l = [] ∨ (l ++ acc) ∈ V) (a : Block) (ha : a ∈ l ++ acc) (i : Nat) (hib : i ∈ b.ids) (hia : i ∈ a.ids) :
+    verify cfg n p b ≠ .ok := by
   intro hv
-  have hi := reach_inv cfg hcons n acc d h
-  obtain ⟨_, hht, htsb, hr, hcc⟩ := verify_ok_inv cfg n n.last b hv
-  have hh : n.lah < b.height := by rw [hi.lah]; omega
-  obtain ⟨c', hc', hid⟩ := List.mem_map.1 hca
-  have h1 := certCheck_ok cfg b.ts b.certs hcc c hc
-  have h2 := hi.certs a ha c' hc'
-  have he : c.expiry = c'.expiry := by rw [hcons c h1.1, h2.1, hid]
-  have h3 := hi.ts a ha
-  have hs := hi.seen a ha c' hc' (by omega) (by omega)
-  exact verify_rejects_seen_dup cfg n n.last b n.last n.last [] c hh hfind
-    (Walk.stop _ (Or.inl (by rw [hi.lah]; exact Nat.le_refl _))) (by simp) (by omega) hc (by rw [← hid]; exact hs) hv
+  have hE := agree_of_literal _ hl
+  have hi := reach_inv cfg _ n acc d V h (agree_tail hE)
+  exact (verify_sound cfg _ n acc d V hi b p l hE hfind hw hlV hv).2.1 a ha i hib hia
+
+/-! ## What validators sign -/
+
+/-- **with the message check** a validator only signs the reference of the chunk it verified:
+chunk id and expiry of every signed reference are those of a chunk of the universe that passed the
+chunk verifier — the source of `ConsistentOn` for certificates signed by such validators. -/
+theorem signed_reference_consistent (cfg : Cfg) (hm : cfg.checksMessage = true) (s : Storage) (refId refExpiry j : Nat)
+    (h : (signReq cfg s refId refExpiry j).2 = .signed) :
+    refId = j ∧ refExpiry = (cfg.U refId).expiry ∧ verifyChunk cfg s.vmin j = none := by
+  unfold signReq at h
+  rw [hm] at h
+  split at h
+  · cases h
+  · rename_i hc
+    simp only [Bool.true_and, Bool.not_eq_true', Bool.not_eq_false, Bool.and_eq_true, beq_iff_eq] at hc
+    split at h
+    · cases h
+    · rename_i hv
+      obtain ⟨rfl, he⟩ := hc
+      exact ⟨rfl, he, hv⟩
+
+/-- **without it (the code as it is; known finding `validator-signs-reference-not-matching-chunk`)**
+the validator signs a reference to chunk 1 with expiry 20 when shown chunk 2 (expiry 12) -/
+def sgCfg : Cfg := { U := fun i => ⟨1, 10 + i, 100, true⟩, window := 40, limit := 1000000, maxSkew := 30 }
+theorem c37_signs_mismatching_reference : (signReq sgCfg Storage.empty 1 20 2).2 = .signed := by decide
+example : (signReq { sgCfg with checksMessage := true } Storage.empty 1 20 2).2 = .refused := by decide
+example : (signReq { sgCfg with checksMessage := true } Storage.empty 2 12 2).2 = .signed := by decide
 
 /-! ## The builder -/
 
@@ -704,25 +940,21 @@ theorem buildBlock_ok (cfg : Cfg) (n : Node) (parent : Block) (ts : Nat) (certs 
 
 /-- **C37 builder, ancestor clause** a block produced by `BuildBlock(parent, ts)` references
 no chunk of a processing ancestor (`x`, at any distance above the accepted chain, verified when
-it was indexed) and no chunk tracked by the accepted set when the walk reaches the accepted
-part of the chain inside the window. Certificates held by the storage verify (`SetChunkCert`
-checks them; `BuildChunk` stores the aggregate it has just produced). -/
-theorem builder_no_ancestor_dup (cfg : Cfg) (hcons : Consistent cfg) (n : Node) (parent : Block) (ts : Nat)
-    (certs : List Cert) (hsig : ∀ c ∈ gather n.st, c.sigOk = true)
-    (h : buildBlock cfg n parent ts = .ok certs) :
+it was indexed, whose certificate is the one the storage holds: same expiry) and no chunk tracked
+by the accepted set when the walk reaches the accepted part of the chain inside the window. -/
+theorem builder_no_ancestor_dup (cfg : Cfg) (n : Node) (parent : Block) (ts : Nat)
+    (certs : List Cert) (h : buildBlock cfg n parent ts = .ok certs) :
     (∀ (l1 l2 : List Block) (x t : Block) (c c' : Cert), Walk n.index n.lah parent (l1 ++ x :: l2) t →
         (∀ y ∈ l1, x.ts ≤ y.ts) → certCheck cfg x.ts x.certs = .ok → c' ∈ x.certs → c ∈ certs →
-        c.chunkID ≠ c'.chunkID) ∧
+        c.expiry = c'.expiry → c.chunkID ≠ c'.chunkID) ∧
     (∀ (l : List Block) (t : Block) (c : Cert), Walk n.index n.lah parent l t →
         (∀ y ∈ l, ts - cfg.window ≤ y.ts) → ts - cfg.window ≤ t.ts → c ∈ certs →
         n.seen.has c.chunkID = false) := by
   obtain ⟨marker, hm, _, hc⟩ := buildBlock_ok cfg n parent ts certs h
   constructor
-  · intro l1 l2 x t c c' hw hts hxv hc' hcm hid
+  · intro l1 l2 x t c c' hw hts hxv hc' hcm he hid
     obtain ⟨h1, h2, hz⟩ := hc c hcm
     have hcx := certCheck_ok cfg x.ts x.certs hxv c' hc'
-    have hcg : c ∈ gather n.st := (List.of_mem_zip hz).1
-    have he : c.expiry = c'.expiry := by rw [hcons c (hsig c hcg), hcons c' hcx.1, hid]
     have hfa := repeats_found n.index n.lah n.seen (ts - cfg.window) ((gather n.st).map (·.chunkID)) x l2 t
       (by omega) l1 parent (parent.height + 1) _ marker hw (by have := walk_len hw; omega)
       (fun y hy => by have := hts y hy; omega) (fa_init _) hm
@@ -738,32 +970,39 @@ theorem builder_no_ancestor_dup (cfg : Cfg) (hcons : Consistent cfg) (n : Node) 
     | false => rfl
     | true => exact absurd (this hs) (by simp)
 
-/-- **C37 builder** `BuildBlock` never produces a block that `Verify` would have to reject
-for one of the three reasons: every certificate is inside its validity window at the block
-timestamp, no chunk is referenced twice, and (`builder_no_ancestor_dup`) none is referenced by an
-ancestor within reach; on top of the last accepted block of any accepted chain this covers
-*every* accepted ancestor. -/
-theorem builder_never_produces_such (cfg : Cfg) (hcons : Consistent cfg) (n : Node) (acc : List Block)
-    (d : List Nat) (hr : Reach cfg n acc d) (ts : Nat) (certs : List Cert)
-    (hwf : ((gather n.st).map (·.chunkID)).Nodup) (hsig : ∀ c ∈ gather n.st, c.sigOk = true)
+/-- **C37 builder** on top of the last accepted block of any reachable state, `BuildBlock` never
+produces a block that `Verify` would have to reject for one of the three reasons: every
+certificate is inside its validity window at the block timestamp, no chunk is referenced twice,
+and no chunk of *any* accepted ancestor is referenced (processing ancestors:
+`builder_no_ancestor_dup`). Hypotheses about the storage, which the builder reads: `hwf` the
+pending map holds at most one certificate per chunk id (`SetChunkCert`/`AddLocalChunkWithCert`
+store a certificate under the id it names), `hEg` its certificates agree with the history on each
+chunk's expiry (literal reuse: they are the certificates that were or will be included). -/
+theorem builder_never_produces_such (cfg : Cfg) (E : Nat → Nat) (n : Node) (acc : List Block)
+    (d : List Nat) (V : List (List Block)) (hr : Reach cfg n acc d V) (hE : Agree E V) (ts : Nat) (certs : List Cert)
+    (hwf : ((gather n.st).map (·.chunkID)).Nodup) (hEg : ∀ c ∈ gather n.st, c.expiry = E c.chunkID)
     (h : buildBlock cfg n n.last ts = .ok certs) :
     (∀ c ∈ certs, ts ≤ c.expiry ∧ c.expiry ≤ ts + cfg.window) ∧ (certs.map (·.chunkID)).Nodup ∧
     (∀ c ∈ certs, c.chunkID ∉ d) := by
   obtain ⟨h1, h2, _⟩ := builder_window_and_nodup cfg n n.last ts certs hwf h
   refine ⟨h1, h2, ?_⟩
   intro c hc hd
-  have hi := reach_inv cfg hcons n acc d hr
+  have hi := reach_inv cfg E n acc d V hr hE
   obtain ⟨a, ha, hia⟩ := (hi.mem _).1 hd
   obtain ⟨c', hc', hid⟩ := List.mem_map.1 hia
   obtain ⟨_, _, hlt, hcs⟩ := buildBlock_ok cfg n n.last ts certs h
   obtain ⟨_, _, hz⟩ := hcs c hc
   have hcg : c ∈ gather n.st := (List.of_mem_zip hz).1
   have hb := h1 c hc
-  have h2' := hi.certs a ha c' hc'
-  have he : c.expiry = c'.expiry := by rw [hcons c (hsig c hcg), h2'.1, hid]
+  have hca := certCheck_ok cfg a.ts a.certs (goodChain_mem cfg _ hi.good a ha) c' hc'
+  have hce : c'.expiry = E c'.chunkID := by
+    rcases hi.accIn with h' | h'
+    · rw [h'] at ha; cases ha
+    · exact hE _ h' a ha c' hc' hca.1
+  have he : c.expiry = c'.expiry := by rw [hEg c hcg, hce, hid]
   have h3 := hi.ts a ha
   have hs := hi.seen a ha c' hc' (by omega) (by omega)
-  have := (builder_no_ancestor_dup cfg hcons n n.last ts certs hsig h).2 [] n.last c
+  have := (builder_no_ancestor_dup cfg n n.last ts certs h).2 [] n.last c
     (Walk.stop _ (Or.inl (by rw [hi.lah]; exact Nat.le_refl _))) (by simp) (by omega) hc
   rw [hid, this] at hs
   cases hs
@@ -787,7 +1026,30 @@ example : (accept exCfg n1 b2 []).2 = .ok [8] := by decide
 example : n2.seen.has 4 = false := by decide
 /-- … and the repaired `Verify` rejects its re-inclusion at 12 because it has expired -/
 example : verify exCfg n2 b2 b3 = .expired := by decide
-example : Consistent exCfg → True := fun _ => trivial
+
+/-! ### Known finding: a second certificate for the same chunk with another expiry
+
+The validators sign the reference (chunk 4, expiry 30) when shown any valid chunk
+(`c37_signs_mismatching_reference`); that certificate verifies (`sigOk`). Chunk 4 is included
+with its real certificate (expiry 10) at 8, leaves the accepted set at 11, and the forged
+certificate is accepted at 26: the chunk is delivered twice. `LiteralReuse`/`ConsistentOn` fail
+for this history, as they must. The harness replays the same chain on the real code in every run. -/
+def c4f : Cert := ⟨4, 30, true⟩
+def b3f : Block := ⟨3, 2, 3, 26, [c4f]⟩
+def n2f : Node := { n2 with st := putVerified exCfg n2.st 4 (some c4f) }
+theorem c37_forged_certificate_delivered_twice :
+    (accept exCfg n0 b1 []).2 = .ok [4] ∧ verify exCfg n2f b2 b3f = .ok ∧ (accept exCfg n2f b3f []).2 = .ok [4] := by
+  decide
+example : ¬ LiteralReuse [[b3f, b2, b1]] := by
+  intro h
+  have := h c4f (by simp [allCerts, b3f, b2, b1]) c4 (by simp [allCerts, b3f, b2, b1]) rfl
+  simp [c4f, c4] at this
+/-- a literal-reuse history (non-vacuity of the hypotheses of the chain theorems) -/
+example : LiteralReuse [[b2, b1], [b1]] := by
+  intro c hc c' hc' hid
+  simp [allCerts, b2, b1] at hc hc'
+  rcases hc with rfl | rfl | rfl <;> rcases hc' with rfl | rfl | rfl <;> simp_all [c4, c8]
+example : Reach exCfg Node.init [] [] [] := Reach.init
 example : ¬ (verify exCfg n1 b1 ⟨9, 1, 2, 9, [c4]⟩ = .ok) := by decide
 
 end HyperModel.Props.C37
